@@ -423,7 +423,9 @@ func (c *FnCtx) evalBin(env *SpecEnv, e *Expr) (Val, error) {
 	switch op {
 	case "<", "<=", ">", ">=":
 		return boolVal("(" + op + " " + a.S + " " + b.S + ")"), nil
-	case "+", "-", "*":
+	case "*":
+		return mathInt(c.mulTerm(a.S, b.S)), nil
+	case "+", "-":
 		return mathInt("(" + op + " " + a.S + " " + b.S + ")"), nil
 	case "/":
 		return mathInt("(div " + a.S + " " + b.S + ")"), nil
